@@ -47,10 +47,15 @@ class It:
         return self.t.setdefault(s, len(self.t) + 1)
 
 
+def lk(prefix, x):
+    """Label key for the model: a label is its value AND its kind (1 is not '1')."""
+    return prefix + (x if isinstance(x, str) else "#" + type(x).__name__ + ":" + repr(x))
+
+
 def enc(desc, it):
     t = desc["t"]
     if t == "dm":
-        return [1, [it("a:" + a) for a in desc["alternatives"]], [it("c:" + c) for c in desc["criteria"]],
+        return [1, [it(lk("a:", a)) for a in desc["alternatives"]], [it(lk("c:", c)) for c in desc["criteria"]],
                 [o == 1 for o in desc["objectives"]], desc["weights"], desc["matrix"], desc["dtypes"]]
     if t == "res":
         return [2, enc_res(desc, it)]
@@ -60,7 +65,7 @@ def enc(desc, it):
 
 
 def enc_res(desc, it):
-    return [bool(desc["kernel"]), it("m:" + desc["method"]), [it("a:" + a) for a in desc["alternatives"]],
+    return [bool(desc["kernel"]), it("m:" + desc["method"]), [it(lk("a:", a)) for a in desc["alternatives"]],
             [float(v) for v in desc["values"]], [(it("k:" + k), v) for k, v in sorted(desc["extra"].items())]]
 
 
@@ -84,8 +89,11 @@ def gen_res(rng, kernel=None):
     extra = {}
     for key in rng.sample(["score", "aux", "z"], rng.randint(0, 2)):
         extra[key] = [rng.randint(-16, 40) / 8.0 for _ in range(rng.choice([n, n, 2, 3]))]
+    alts = gen.labels(rng, n, gen.LABEL_POOL_A, "A", kinds=False)
+    if rng.random() < 0.25:
+        alts = rng.sample(range(1, 3 * n + 1), n)        # integer labels
     return {"t": "res", "kernel": kernel, "method": rng.choice(["WSM", "TOPSIS", "m"]),
-            "alternatives": gen.labels(rng, n, gen.LABEL_POOL_A, "A", kinds=False), "values": [int(v) for v in vals],
+            "alternatives": alts, "values": [int(v) for v in vals],
             "extra": extra}
 
 
@@ -159,7 +167,12 @@ def perturb(rng, desc, rtol, atol):
             d["method"] = d["method"] + "x"
             return d, "one:method"
         if what == "alternatives":
-            if n >= 2 and rng.random() < 0.5:
+            ints = [i for i, a in enumerate(d["alternatives"]) if isinstance(a, int)]
+            if ints and rng.random() < 0.5:
+                # the same labels as text: 1 becomes "1" (one of them, or all)
+                for i in (ints if rng.random() < 0.5 else [rng.choice(ints)]):
+                    d["alternatives"][i] = str(d["alternatives"][i])
+            elif n >= 2 and rng.random() < 0.5:
                 i, j = rng.sample(range(n), 2)
                 d["alternatives"][i], d["alternatives"][j] = d["alternatives"][j], d["alternatives"][i]
             else:
